@@ -76,6 +76,11 @@ def interpret(effs, env, handler, limit=200000, on_segment=None):
                 raise NotEvaluable("more than %d steps" % limit)
             if e == "loop":
                 lo, hi, st = eval_term(x["lo"], env), eval_term(x["hi"], env), eval_term(x["step"], env)
+                if lo is None or hi is None:
+                    # a bound that mentions a local the handler keeps (a count found by scanning the data): ask the handler
+                    ask = lambda t_: handler("value", {"term": t_, "l": x.get("l")}, env)
+                    lo = ask(x["lo"]) if lo is None else lo
+                    hi = ask(x["hi"]) if hi is None else hi
                 if lo is None or hi is None or not st:
                     raise NotEvaluable("loop at line %s: range [%s, %s)" % (x.get("l"), sym.show(x["lo"]), sym.show(x["hi"])))
                 i = lo
@@ -101,7 +106,33 @@ def interpret(effs, env, handler, limit=200000, on_segment=None):
                 if on_segment:
                     on_segment(env, x)
             elif e == "while":
-                raise NotEvaluable("loop at line %s is not a counted loop" % x.get("l"))
+                # a loop the executor could not count (its test depends on data): run it, when the handler can decide the test.
+                # Terms of the body are expressed over the values at the start of the iteration (segment at every iteration).
+                if x.get("kind") not in ("while", "for?", "for"):
+                    raise NotEvaluable("loop at line %s is not a counted loop" % x.get("l"))
+                n_it = 0
+                while True:
+                    if on_segment:
+                        on_segment(env, x)
+                    c = eval_term(x["cond"], env) if isinstance(x.get("cond"), tuple) else None
+                    if c is None:
+                        c = handler("cond", x, env)
+                    if c is None:
+                        raise NotEvaluable("test %s of the loop at line %s" % (sym.show(x["cond"])[:80] if isinstance(x.get("cond"), tuple) else "?", x.get("l")))
+                    if not c:
+                        break
+                    n_it += 1
+                    if n_it > 4096:
+                        raise NotEvaluable("loop at line %s does not end" % x.get("l"))
+                    try:
+                        go(x["body"], env)
+                    except _Jump as j:
+                        if j.kind == "break":
+                            break
+                        if j.kind != "continue":
+                            raise
+                if on_segment:
+                    on_segment(env, x)
             elif e == "if":
                 c = eval_term(x["cond"], env)
                 if c is None:
@@ -291,6 +322,45 @@ class PolyState(Memory):
             return None                      # something opaque (a float, a pointer) was stored there
         return val if isinstance(val, dict) else {(val,): 1}
 
+    def truth(self, c, env):
+        """truth value of a condition over constants (dimensions, loop variables, locals holding constants); None otherwise"""
+        const = lambda val: None if val is None else 0 if val == {} else val.get(()) if set(val) == {()} else None
+        if c[0] == "un" and c[1] == "!":
+            r = self.truth(c[2], env)
+            return None if r is None else not r
+        if c[0] == "op" and c[1] in ("&&", "||"):
+            a = self.truth(c[2], env)
+            if a is not None and a == (c[1] == "||"):
+                return a
+            b = self.truth(c[3], env)
+            return None if a is None or b is None else b
+        if c[0] == "op" and c[1] in ("==", "!=", "<", "<=", ">", ">="):
+            a, b = const(self.value(c[2], env)), const(self.value(c[3], env))
+            if a is None or b is None:
+                return None
+            return {"==": a == b, "!=": a != b, "<": a < b, "<=": a <= b, ">": a > b, ">=": a >= b}[c[1]]
+        v = const(self.value(c, env))
+        return None if v is None else bool(v)
+
+    def loc(self, t, env):
+        """location of an lvalue; a subscript that mentions locals is evaluated through their (constant) values"""
+        try:
+            return lvalue_location(t, env)
+        except NotEvaluable:
+            pass
+        while t[0] == "cast":
+            t = t[2]
+        if t[0] == "idx":
+            val = self.value(t[2], env)
+            k = 0 if val == {} else val.get(()) if val is not None and set(val) == {()} else None
+            if k is None:
+                raise NotEvaluable("subscript %s" % sym.show(t[2])[:80])
+            return lvalue_location(("idx", t[1], ("int", k)), env)
+        if t[0] == "fld":
+            r, p = self.loc(t[1], env)
+            return r, p + (t[2],)
+        return t, ()
+
     def value(self, t, env):
         """polynomial value of a term, None when it is not a polynomial in the entry values"""
         k = t[0]
@@ -306,7 +376,7 @@ class PolyState(Memory):
         if k == "sym":
             return {(t,): 1}                  # a scalar argument
         if k in ("idx", "fld"):
-            return self.read(lvalue_location(t, env))
+            return self.read(self.loc(t, env))
         if k == "poly":
             out = {}
             for mono, coef in t[1]:
@@ -320,6 +390,8 @@ class PolyState(Memory):
             return out
         if k == "cond":
             c = eval_term(t[1], env)
+            if c is None:
+                c = self.truth(t[1], env)
             return None if c is None else self.value(t[2] if c else t[3], env)
         if k == "un" and t[1] == "-":
             x = self.value(t[2], env)
@@ -344,7 +416,7 @@ class PolyState(Memory):
             return
         val = self.value(x["val"], env) if isinstance(x.get("val"), tuple) else None
         op = x.get("op") or "="
-        key = lvalue_location(x["lv"], env)
+        key = self.loc(x["lv"], env)
         old = self.read(key) if op != "=" else None
         if val is None or (op != "=" and old is None):
             self.write(key, None)            # not a polynomial (a variance, a pointer): opaque, an error only if it is read as a number
